@@ -131,11 +131,11 @@ def rule_end(ctx, M, u):
         if any(d != 1 for b, d, sp in ups if b in mine):
             probs.append("ended counter changed by something other than +1")
         S = [b for b in c02.state_sets_for(M, u, c, ("None",)) if bi.guarded_by(b, ne)]
-        r = bi.body.reach([t for _, t in ne], avoid_blocks=S, stop_blocks=exits, avoid_edges=avoid)
+        r = bi.reach_from_edges(ne, avoid_blocks=S, stop_blocks=exits, avoid_edges=avoid)
         if not S or any(x in r for x in exits):
             probs.append("input is not marked ended (state None) on every None path")
         # the all-ended test is evaluated in this call before the scan moves on or returns
-        r = bi.body.reach([t for _, t in ne], avoid_blocks=tests, stop_blocks=exits, avoid_edges=avoid)
+        r = bi.reach_from_edges(ne, avoid_blocks=tests, stop_blocks=exits, avoid_edges=avoid)
         if not tests or any(x in r for x in exits):
             probs.append("the all-ended test is not evaluated after the input ended")
         # not all ended => scan continues: header reached, no Pending / return on the way
